@@ -54,7 +54,9 @@ def simulate(rng):
             if rng.random() < 0.3:
                 u2 = rng.choice(S.units('Time'))
                 dt2 = 2e-3 / S.ffactor('Time', u2)
-                Solver(pt).run(time_discretization=U.TimeInterval(dt2, u2), simulation_time=U.TimeInterval(dt2 * rng.randint(2, 4), u2))
+                n2 = rng.randint(2, 4)
+                Solver(pt).run(time_discretization=U.TimeInterval(dt2, u2), simulation_time=U.TimeInterval(dt2 * n2, u2))
+                sc['ops'] += [['newsolver'], ['run', ['TimeInterval', dt2, u2], ['TimeInterval', dt2 * n2, u2], None, None]]
             return pt, els, sc
         except Exception:  # noqa
             continue
@@ -255,6 +257,95 @@ def correspondence(pid, tier, seed):
 
 
 # ------------------------------------------------------------------ search
+UKEY = dict(zip(VARS[:9] + ['electric current'], UKEYS[:6] + ['force_unit', 'stress_unit', 'stress_unit', 'current_unit']))
+
+
+def effective_units(kw):
+    return {k: kw.get(k, DEFAULT_UNITS[k]) for k in UKEYS}
+
+
+def check_snapshot(pt, els, sc, call):
+    """one snapshot call (call = dict(i, lam, tu, req, kw)) against the recorded samples; list of witnesses"""
+    ts = [t.to('sec').value for t in pt.time]
+    i, lam, tu, req, kw = call['i'], call['lam'], call['tu'], call['req'], call['kw']
+    us = effective_units(kw)
+    tsec = ts[i] + lam * (ts[i + 1] - ts[i])
+    W = lambda cls, what: dict(cls=cls, what=what, case=dict(scenario=sc, call=dict(call, kind='snapshot')))  # noqa
+    try:
+        df = pt.snapshot(target_time=U.Time(tsec / S.ffactor('Time', tu), tu), variables=list(req), print_data=False, **kw)
+    except Exception as ex:  # noqa
+        return [W('snapshot-raises', f'snapshot raised {type(ex).__name__}: {str(ex)[:120]} at t={tsec!r} s inside the simulated interval, variables {req}')]
+    want_cols = ['pwm' if v == 'pwm' else f'{v} ({us[UKEY[v]]})' for v in VARS if v in req]
+    if list(df.columns) != want_cols:
+        return [W('columns', f'snapshot(variables={req}, units passed {kw}) has columns {list(df.columns)}, expected {want_cols}')]
+    out = []
+    for e in els:
+        for v in req:
+            if v not in e.time_variables or len(e.time_variables[v]) != len(ts):
+                continue
+            col = 'pwm' if v == 'pwm' else f'{v} ({us[UKEY[v]]})'
+            smp = e.time_variables[v]
+            y = [x if v == 'pwm' else x.value * S.ffactor(KIND[v], x.unit) / S.ffactor(KIND[v], us[UKEY[v]]) for x in smp]
+            want = y[i] + lam * (y[i + 1] - y[i])
+            got = df.loc[e.name, col] if e.name in df.index else float('nan')
+            scale = max(abs(y[i]), abs(y[i + 1]), 1e-300)
+            if not (isinstance(got, (int, float, np.floating)) and abs(float(got) - want) <= 1e-8 * scale + 1e-12 * scale * (ts[-1] / max(ts[i + 1] - ts[i], 1e-300))):
+                out.append(W('cell', f'snapshot at t={tsec!r} s: {e.name} {col} is {got!r}, the recorded samples give {want!r}'))
+    return out
+
+
+def check_export(pt, els, sc, call, tmpdir):
+    """one export (call = dict(how='function'|'method', targets=[indices], kw, tu)) against the recorded samples; list of witnesses"""
+    ts = [t.to('sec').value for t in pt.time]
+    how, kw, tu = call['how'], call['kw'], call['tu']
+    targets = [els[j] for j in call['targets']]
+    us = effective_units(kw)
+    W = lambda cls, what: dict(cls=cls, what=what, case=dict(scenario=sc, call=dict(call, kind='export')))  # noqa
+    folder = os.path.join(tmpdir, f'x{len(os.listdir(tmpdir))}')
+    d13 = any(len(v) != len(ts) for e in targets for v in e.time_variables.values())
+    try:
+        if how == 'function':
+            export_time_variables(rotating_object=targets[0], file_path=os.path.join(folder, targets[0].name), time_array=pt.time, time_unit=tu, **kw)
+        else:
+            pt.export_time_variables(folder_path=folder, time_unit=tu, **kw)
+    except Exception as ex:  # noqa
+        return [W('D13' if d13 else 'export-raises', f'export ({how}) of {[e.name for e in targets]} raised {type(ex).__name__}: {str(ex)[:120]}')]
+    out = []
+    for e in targets:
+        path = os.path.join(folder, e.name + '.csv')
+        if not os.path.exists(path):
+            out.append(W('export-file', f'export ({how}) wrote no file for {e.name}'))
+            continue
+        df = pd.read_csv(path, float_precision='round_trip')
+        if len(df) != len(ts):
+            out.append(W('export-rows', f'exported file of {e.name} has {len(df)} rows for {len(ts)} instants'))
+            continue
+        tcol = f'time ({tu})'
+        if tcol not in df.columns:
+            out.append(W('export-column', f'export ({how}): file of {e.name} lacks column {tcol!r}: {list(df.columns)}'))
+            continue
+        for j, t in enumerate(pt.time):
+            want = t.value * S.ffactor('Time', t.unit) / S.ffactor('Time', tu)
+            if abs(float(df[tcol][j]) - want) > 1e-9 * max(abs(want), 1e-300):
+                out.append(W('export-cell', f'export ({how}): {e.name} row {j} column {tcol!r} is {df[tcol][j]!r}, the recorded instant {t!r} converted is {want!r}'))
+                break
+        for v, smp in e.time_variables.items():
+            col = 'pwm' if v == 'pwm' else f'{v} ({us[UKEY[v]]})'
+            if col not in df.columns:
+                out.append(W('export-column', f'export ({how}, units passed {kw}): file of {e.name} lacks column {col!r}: {list(df.columns)}'))
+                break
+            bad = False
+            for j, x in enumerate(smp):
+                want = x if v == 'pwm' else x.value * S.ffactor(KIND[v], x.unit) / S.ffactor(KIND[v], us[UKEY[v]])
+                if abs(float(df[col][j]) - want) > 1e-9 * max(abs(want), 1e-300):
+                    out.append(W('export-cell', f'export ({how}): {e.name} row {j} column {col!r} is {df[col][j]!r}, the recorded sample {x!r} converted is {want!r}'))
+                    bad = True
+                    break
+            if bad:
+                break
+    return out
+
+
 def search(pid, tier, seed, escalate, hints):
     rng = random.Random(seed * 419 + 5)
     n = (40 if tier == 'quick' else 500) * (4 if escalate else 1)
@@ -268,89 +359,35 @@ def search(pid, tier, seed, escalate, hints):
             ts = [t.to('sec').value for t in pt.time]
             for _ in range(4):
                 k += 1
-                us = rand_units(rng, els)
-                kw = passed(rng, us)
+                kw = passed(rng, rand_units(rng, els))
                 avail = sorted({kk for e in els for kk in e.time_variables}, key=VARS.index)
                 req = rng.sample(avail, rng.randint(1, len(avail)))
-                i = rng.randrange(len(ts) - 1)
-                lam = rng.choice([0.0, 1.0, rng.random()])
-                tsec = ts[i] + lam * (ts[i + 1] - ts[i])
-                tu = rng.choice(S.units('Time'))
-                try:
-                    df = pt.snapshot(target_time=U.Time(tsec / S.ffactor('Time', tu), tu), variables=list(req), print_data=False, **kw)
-                except Exception as ex:  # noqa
-                    out.append(dict(cls='snapshot-raises', what=f'snapshot raised {type(ex).__name__}: {str(ex)[:120]} at t={tsec!r} s inside the simulated interval, variables {req}', case=dict(scenario=sc)))
-                    continue
-                want_cols = []
-                ukey = dict(zip(VARS[:9] + ['electric current'], UKEYS[:6] + ['force_unit', 'stress_unit', 'stress_unit', 'current_unit']))
-                for v in VARS:
-                    if v in req:
-                        want_cols.append('pwm' if v == 'pwm' else f'{v} ({us[ukey[v]]})')
-                if list(df.columns) != want_cols:
-                    out.append(dict(cls='columns', what=f'snapshot(variables={req}) has columns {list(df.columns)}, expected {want_cols}', case=dict(scenario=sc)))
-                    continue
-                for e in els:
-                    for v in req:
-                        if v not in e.time_variables or len(e.time_variables[v]) != len(ts):
-                            continue
-                        col = 'pwm' if v == 'pwm' else f'{v} ({us[ukey[v]]})'
-                        smp = e.time_variables[v]
-                        y = [x if v == 'pwm' else x.value * S.ffactor(KIND[v], x.unit) / S.ffactor(KIND[v], us[ukey[v]]) for x in smp]
-                        want = y[i] + lam * (y[i + 1] - y[i])
-                        got = df.loc[e.name, col] if e.name in df.index else float('nan')
-                        scale = max(abs(y[i]), abs(y[i + 1]), 1e-300)
-                        if not (isinstance(got, (int, float, np.floating)) and abs(float(got) - want) <= 1e-8 * scale + 1e-12 * scale * (ts[-1] / max(ts[i + 1] - ts[i], 1e-300))):
-                            out.append(dict(cls='cell', what=f'snapshot at t={tsec!r} s: {e.name} {col} is {got!r}, the recorded samples give {want!r}', case=dict(scenario=sc)))
+                call = dict(i=rng.randrange(len(ts) - 1), lam=rng.choice([0.0, 1.0, rng.random()]), tu=rng.choice(S.units('Time')), req=req, kw=kw)
+                out += check_snapshot(pt, els, sc, call)
             # exports: the function, element by element, then the Powertrain method (one call, one file per element)
-            plans = []
-            for e in els:
-                us = rand_units(rng, [e])
-                kw = passed(rng, us)
-                tu = rng.choice(S.units('Time'))
-                plans.append(('function', [e], us, kw, tu))
-            us = rand_units(rng, els)
-            kw = passed(rng, us)
-            tu = rng.choice(S.units('Time'))
-            plans.append(('method', list(els), us, kw, tu))
-            for how, targets, us, kw, tu in plans:
+            calls = [dict(how='function', targets=[j], kw=passed(rng, rand_units(rng, [e])), tu=rng.choice(S.units('Time'))) for j, e in enumerate(els)]
+            calls.append(dict(how='method', targets=list(range(len(els))), kw=passed(rng, rand_units(rng, els)), tu=rng.choice(S.units('Time'))))
+            for call in calls:
                 k += 1
-                folder = os.path.join(d, f'x{rng.random()}')
-                d13 = any(len(v) != len(ts) for e in targets for v in e.time_variables.values())
-                try:
-                    if how == 'function':
-                        export_time_variables(rotating_object=targets[0], file_path=os.path.join(folder, targets[0].name), time_array=pt.time, time_unit=tu, **kw)
-                    else:
-                        pt.export_time_variables(folder_path=folder, time_unit=tu, **kw)
-                except Exception as ex:  # noqa
-                    out.append(dict(cls='D13' if d13 else 'export-raises', what=f'export ({how}) of {[e.name for e in targets]} raised {type(ex).__name__}: {str(ex)[:120]}', case=dict(scenario=sc)))
-                    continue
-                for e in targets:
-                    path = os.path.join(folder, e.name + '.csv')
-                    if not os.path.exists(path):
-                        out.append(dict(cls='export-file', what=f'export ({how}) wrote no file for {e.name}', case=dict(scenario=sc)))
-                        continue
-                    df = pd.read_csv(path, float_precision='round_trip')
-                    if len(df) != len(ts):
-                        out.append(dict(cls='export-rows', what=f'exported file of {e.name} has {len(df)} rows for {len(ts)} instants', case=dict(scenario=sc)))
-                        continue
-                    ukey = dict(zip(VARS[:9] + ['electric current'], UKEYS[:6] + ['force_unit', 'stress_unit', 'stress_unit', 'current_unit']))
-                    for v, smp in e.time_variables.items():
-                        col = 'pwm' if v == 'pwm' else f'{v} ({us[ukey[v]]})'
-                        if col not in df.columns:
-                            out.append(dict(cls='export-column', what=f'export ({how}, units passed {kw}): file of {e.name} lacks column {col!r}: {list(df.columns)}', case=dict(scenario=sc)))
-                            break
-                        bad = False
-                        for j, x in enumerate(smp):
-                            want = x if v == 'pwm' else x.value * S.ffactor(KIND[v], x.unit) / S.ffactor(KIND[v], us[ukey[v]])
-                            if abs(float(df[col][j]) - want) > 1e-9 * max(abs(want), 1e-300):
-                                out.append(dict(cls='export-cell', what=f'export ({how}): {e.name} row {j} column {col!r} is {df[col][j]!r}, the recorded sample {x!r} converted is {want!r}', case=dict(scenario=sc)))
-                                bad = True
-                                break
-                        if bad:
-                            break
+                out += check_export(pt, els, sc, call, d)
             if len([w for w in out if w['cls'] != 'D13']) >= 5:
                 break
     return out, k
+
+
+def resimulate(sc):
+    """the recorded history of a witness scenario, rebuilt (solver-family scenario, or a fam_keys pair with its run operations)"""
+    if sc.get('flavour'):
+        r = scen.run_impl(sc, keep_objects=True)
+        return r['objects'][0], r['objects'][1]
+    pt, els = scen.build(fam_keys.fix_opt(sc))
+    solver = Solver(pt)
+    for op in sc['ops']:
+        if op[0] == 'newsolver':
+            solver = Solver(pt)
+        elif op[0] == 'run':
+            solver.run(time_discretization=scen.mkq(op[1]), simulation_time=scen.mkq(op[2]))
+    return pt, els
 
 
 def replay_known(pid, k):
@@ -360,5 +397,17 @@ def replay_known(pid, k):
 
 def replay(pid, path):
     d = json.load(open(path))
-    print('replay: re-run the check; recorded witness:', json.dumps(d.get('witness'), default=str)[:800])
-    return 1
+    w = d.get('witness') or {}
+    case = w.get('case') or {}
+    if 'call' not in case:
+        print('replay: re-run the check; recorded witness:', json.dumps(w, default=str)[:800])
+        return 1
+    pt, els = resimulate(case['scenario'])
+    with tempfile.TemporaryDirectory() as tmp:
+        ws = check_snapshot(pt, els, case['scenario'], case['call']) if case['call']['kind'] == 'snapshot' else check_export(pt, els, case['scenario'], case['call'], tmp)
+    ws = [x for x in ws if x['cls'] != 'D13']
+    if ws:
+        print('still fails:', ws[0]['what'])
+        return 1
+    print('no longer fails on this history and call')
+    return 0
